@@ -143,11 +143,16 @@ func (s *Server) handleConn(ctx context.Context, conn net.Conn) error {
 			return nil
 		case *pgproto3.Query:
 			start := time.Now()
+			// The decision (and its cache key) must be taken on exactly the text
+			// that is forwarded. The 512-byte abbreviation is for the audit log only:
+			// authorizing it would ignore everything after byte 512 (for example a
+			// join on a denied topic) and let long queries share cache entries.
+			full := strings.TrimSpace(m.String)
 			trimmed := trimQuery(m.String)
-			key := cacheKey(trimmed)
+			key := cacheKey(full)
 			decision, hit := cache.get(key)
 			if !hit {
-				allowed, reason, topics, showTopics := authorizeQuery(acl, trimmed)
+				allowed, reason, topics, showTopics := authorizeQuery(acl, full)
 				decision = cacheDecision{
 					created:    time.Now(),
 					allowed:    allowed,
